@@ -60,7 +60,7 @@ func (m *Mutex) Lock() {
 }
 func (m *Mutex) TryLock() bool {
 	vsched.Point()
-	if m.locked {
+	if m.locked && !vsched.Abort { // tearing down: deferred code of a dying thread must not spin on a dead holder
 		return false
 	}
 	m.locked = true
@@ -105,7 +105,7 @@ func (m *RWMutex) Lock() {
 }
 func (m *RWMutex) TryLock() bool {
 	vsched.Point()
-	if m.w || m.r > 0 {
+	if (m.w || m.r > 0) && !vsched.Abort {
 		return false
 	}
 	m.w = true
@@ -137,7 +137,7 @@ func (m *RWMutex) RLock() {
 }
 func (m *RWMutex) TryRLock() bool {
 	vsched.Point()
-	if m.w {
+	if m.w && !vsched.Abort {
 		return false
 	}
 	m.r++
